@@ -552,6 +552,7 @@ func readerSeq(args []string) error {
 					zr.Reset(src)
 				}
 				e["cons"] = srcPos(src) - before
+				e["st"], _, _ = zr.VerifState() // the lifecycle state after the call
 				res.calls = append(res.calls, e)
 			}
 			if !isPrefix(delivered, content) {
